@@ -45,13 +45,13 @@ def scan_cfg():
     """The loop constants as the translator extracted them: ((default, cap, factor), recognised?).
     When the source is no longer recognised the last known constants are used for the search."""
     src = open(os.path.join(LEAN, "FerrousSpec", "Gen", "ScanConsts.lean")).read()
-    m = re.search(r"def scanCfg : Ferrous\.Scan\.Cfg := ⟨(\d+), (\d+), (\d+)⟩", src)
+    m = re.search(r"def scanCfg : Ferrous\.Scan\.Cfg := ⟨(\d+), (\d+), (\d+), (true|false)⟩", src)
     if m:
-        return (int(m.group(1)), int(m.group(2)), int(m.group(3))), True
-    return (10, 1000, 10), False
+        return (int(m.group(1)), int(m.group(2)), int(m.group(3)), 1 if m.group(4) == "true" else 0), True
+    return (10, 1000, 10, 1), False
 
 
-def norm_count(count, cfg=(10, 1000, 10)):
+def norm_count(count, cfg=(10, 1000, 10, 1)):
     return min(count if count != 0 else cfg[0], cfg[1])
 
 
@@ -256,7 +256,7 @@ class C19:
         self.impl = LineProc([os.environ.get("VERIF_C19_IMPL", os.path.join(IMPL_BIN, "impl_scan"))], "impl-scan")
         self.model = lean_driver("scan")
         self.cfg = scan_cfg()
-        if self.model.ask("cfg %d %d %d" % self.cfg[0]) != "ok":
+        if self.model.ask("cfg %d %d %d %d" % self.cfg[0]) != "ok":
             raise InternalError("Lean driver refused the scan constants")
         self.findings = findings()
         self.oracle_failures = []     # (shape, what, desc, detail)
